@@ -141,7 +141,8 @@ class SObj:
         self.frozen_ok = False
 
     def __repr__(self):
-        return f"<{self.cls.name}#{self.oid} {self.fields}>"
+        w = f" @{self.where}" if hasattr(self, "where") else ""
+        return f"<{self.cls.name}#{self.oid} {self.fields}{w}>"
 
 
 @dataclass(eq=False)
